@@ -586,4 +586,29 @@ theorem name_roundtrip_with (apple ms macOrder winOrder : List (Nat × String)) 
     simp only [List.append_nil, List.mem_reverse, List.mem_filterMap]
     exact ⟨r, (hmem r).mpr hr, by rw [hd]; rfl⟩
 
+theorem mem_insertLang (e x : Nat × String) (l : List (Nat × String)) :
+    x ∈ insertLang e l ↔ x = e ∨ x ∈ l := by
+  induction l with
+  | nil => simp [insertLang]
+  | cons y rest ih =>
+    unfold insertLang
+    split
+    · simp
+    · simp only [List.mem_cons, ih]
+      constructor
+      · rintro (h | h | h)
+        · exact Or.inr (Or.inl h)
+        · exact Or.inl h
+        · exact Or.inr (Or.inr h)
+      · rintro (h | h | h)
+        · exact Or.inr (Or.inl h)
+        · exact Or.inl h
+        · exact Or.inr (Or.inr h)
+
+theorem mem_sortLangs (x : Nat × String) (l : List (Nat × String)) : x ∈ sortLangs l ↔ x ∈ l := by
+  unfold sortLangs
+  induction l with
+  | nil => simp
+  | cons y rest ih => simp only [List.foldr_cons, mem_insertLang, ih, List.mem_cons]
+
 end SfntV.Names
